@@ -136,6 +136,10 @@ type Op struct {
 	Ks   []int  `json:"ks,omitempty"`
 	Q    []Tag  `json:"q,omitempty"` // criteria (name, value; value 0 = any)
 	B    []BOp  `json:"b,omitempty"`
+	// queryopt: Query with options
+	Page int `json:"page,omitempty"` // WithPageSize
+	Init int `json:"init,omitempty"` // WithInitialPageNum
+	Sort int `json:"sort,omitempty"` // WithSortOrder on this tag name
 }
 
 // Res is one entry of a query result.
@@ -445,8 +449,21 @@ func (w *world) exec(o Op) (out Out) {
 		}
 
 		return r
-	case "query":
-		it, err := s.Query(exprStr(o.Q))
+	case "query", "queryopt":
+		var opts []spi.QueryOption
+		if o.Page > 0 {
+			opts = append(opts, spi.WithPageSize(o.Page))
+		}
+
+		if o.Init > 0 {
+			opts = append(opts, spi.WithInitialPageNum(o.Init))
+		}
+
+		if o.Sort > 0 {
+			opts = append(opts, spi.WithSortOrder(&spi.SortOptions{Order: spi.SortDescending, TagName: nameStr(o.Sort)}))
+		}
+
+		it, err := s.Query(exprStr(o.Q), opts...)
 		if err != nil {
 			return errOut(err)
 		}
@@ -631,8 +648,10 @@ func (r *ref) exec(o Op) Out {
 		}
 
 		return Out{Kind: "bulk", Vs: vs}
-	case "query":
-		if len(o.Q) == 0 {
+	case "query", "queryopt":
+		// mem and leveldb document WithInitialPageNum / WithSortOrder as unsupported (an error); WithPageSize only
+		// concerns performance
+		if len(o.Q) == 0 || o.Init > 0 || o.Sort > 0 {
 			return Out{Kind: "err"}
 		}
 
@@ -774,6 +793,8 @@ func coqOp(o Op) string {
 		return "Op (GetBulk " + coqNs(o.Ks) + ")"
 	case "query":
 		return "Op (Query " + coqTags(o.Q) + ")"
+	case "queryopt":
+		return "QOpt " + coqTags(o.Q) + " " + hx.CoqBool(o.Init == 0 && o.Sort == 0)
 	case "delete":
 		return fmt.Sprintf("Op (Delete %d)", o.K)
 	case "batch":
@@ -819,7 +840,7 @@ func coqOut(o Out) string {
 // ---------- running one case ----------
 
 func inContract(st Stack, o Op) bool {
-	if o.Kind == "query" && len(o.Q) >= 2 {
+	if (o.Kind == "query" || o.Kind == "queryopt") && len(o.Q) >= 2 {
 		return st.supportsConj()
 	}
 
@@ -842,7 +863,7 @@ func sigOf(st Stack, ops []Op, i int, want, got Out, r *ref) string {
 		return "panic:" + top + ":" + o.Kind
 	}
 
-	if o.Kind == "query" && len(o.Q) == 1 && o.Q[0][1] == 0 && want.Kind == "query" && got.Kind == "query" &&
+	if (o.Kind == "query" || o.Kind == "queryopt") && len(o.Q) == 1 && o.Q[0][1] == 0 && want.Kind == "query" && got.Kind == "query" &&
 		st.Base == "leveldb" && len(got.R) > len(want.R) {
 		// every expected entry is there; the extra ones are keys that exist but do not carry the tag name any more
 		wantKeys := map[int]bool{}
@@ -1001,6 +1022,23 @@ func randOp(r *hx.Rng, st Stack) Op {
 		q := queries[r.Intn(len(queries))]
 		if r.Intn(40) == 0 {
 			q = nil
+		}
+
+		if r.Intn(5) == 0 {
+			o := Op{Kind: "queryopt", Q: q}
+
+			switch r.Intn(4) {
+			case 0:
+				o.Page = 1 + r.Intn(3)
+			case 1:
+				o.Page, o.Init = r.Intn(3), 1+r.Intn(2)
+			case 2:
+				o.Sort = 1 + r.Intn(2)
+			default:
+				o.Page = 1
+			}
+
+			return o
 		}
 
 		return Op{Kind: "query", Q: q}
